@@ -117,7 +117,7 @@ func (g *genCfg) anyNode() datamodel.Node {
 	cfg := &lib.GenCfg{MaxDepth: 2, MaxWidth: 3, Links: true, UintBeyond: !g.jsonSafe, NoNull: true, NoFloat: g.jsonSafe}
 	for {
 		v := g.rng.GenVal(cfg, 0)
-		if v.Kind == lib.KNull || hasNull(v) {
+		if v.Kind == lib.KNull || hasNull(v) || (g.jsonSafe && hasSlashKey(v)) {
 			continue
 		}
 		n, err := lib.BuildBasic(v)
@@ -129,6 +129,20 @@ func (g *genCfg) anyNode() datamodel.Node {
 }
 
 func hasNull(v *lib.Val) bool { return v.KindMask()&(1<<lib.KNull) != 0 }
+
+func hasSlashKey(v *lib.Val) bool {
+	for _, x := range v.L {
+		if hasSlashKey(x) {
+			return true
+		}
+	}
+	for _, e := range v.M {
+		if e.K == "/" || hasSlashKey(e.V) {
+			return true
+		}
+	}
+	return false
+}
 
 // gen fills v (settable, zero) with a random value that is well formed for schema type st.
 // st == nil: the type is used with an inferred schema (no unions, maps or enums there).
@@ -172,7 +186,12 @@ func (g *genCfg) gen(v reflect.Value, st schema.Type, depth int) {
 			v.SetString(ms[r.Intn(len(ms))])
 			return
 		}
-		v.SetString(r.GenStr(strCfg))
+		str := r.GenStr(strCfg)
+		if g.jsonSafe && str == "/" {
+			// {"/": ...} is DAG-JSON's reserved form for links and bytes (C04's business)
+			str = "/x"
+		}
+		v.SetString(str)
 	case reflect.Ptr:
 		// a pointer for a required position: always set
 		nv := reflect.New(t.Elem())
@@ -211,6 +230,9 @@ func (g *genCfg) gen(v reflect.Value, st schema.Type, depth int) {
 			seen := map[string]bool{}
 			for i := 0; i < n; i++ {
 				k := r.GenStr(strCfg)
+				if g.jsonSafe && k == "/" {
+					k = "/x"
+				}
 				if seen[k] {
 					continue
 				}
